@@ -102,6 +102,11 @@ structure Server where
   elapsed : Nat := 0
   timerAcc : Nat := 0
   timeout : Nat := 400
+  /-- Schedule detail: does the `reset` system run before the run condition of
+  `send_replication` is evaluated in the frame after a stop?  The plugin does not order the two;
+  Bevy's topological sort decides, depending on which other systems are present (observed: yes
+  with the client plugins in the app, no without them). -/
+  resetBeforeCondition : Bool := true
 deriving Repr, Inhabited
 
 /-! ### small association-list helpers -/
@@ -373,7 +378,8 @@ def Server.frameBegin (s : Server) (ticked : Bool) (ms : Nat := 10) : Server × 
     -- reset's write to `ServerTick` is consumed in the same frame.  (The two are not ordered
     -- in the plugin: with a different system set-up the first frame after a restart may
     -- replicate at tick 0 instead.  Both behaviours satisfy the properties.)
-    ({ s with pendingRem := [], pendingRemOld := s.pendingRem, tickChanged := false, lastRunning := false }, false, [])
+    ({ s with pendingRem := [], pendingRemOld := s.pendingRem,
+              tickChanged := justStopped && !s.resetBeforeCondition, lastRunning := false }, false, [])
   else
     let s := { s with lastRunning := true }
     let s := { s with clients := s.clients.map fun (c, cl) => (c, Cli.processAcks cl) }
